@@ -143,6 +143,16 @@ func genCommands(g *gen) {
 	per := g.size(120, 3000)
 	seps := []string{" ", " ", " ", "  ", "\t", " \t "}
 	for _, p := range commandPositions() {
+		// no word at all: the empty (or blank) string is the explicitly empty command, like `[]`,
+		// which is not the unset one (it clears the image's value and overrides a base)
+		for _, blank := range []string{"", " ", "\t ", "  "} {
+			g.emit(pcase{Position: p.name, Class: "no-word", Mode: "pair",
+				Docs: []spelled{
+					{Name: "list", Text: "[]", YAML: p.doc(l{})},
+					{Name: "string", Text: blank, YAML: p.doc(blank)},
+				},
+				Expect: map[string]string{"len(" + p.get + ")": "0", "isnil(" + p.get + ")": "false"}})
+		}
 		for i := 0; i < per; i++ {
 			k := 1 + r.Intn(4)
 			words := make([]string, k)
